@@ -31,7 +31,7 @@ MANIFEST = dict(
           "constant (depth_bounded_*); and witness theorems that the unrepaired accountings are unbounded on explicit families "
           "(decodeOld/deepcopyOld on a chain with trailing text or a trailing sibling at every level, .string/find_all(name,string=)/"
           "smooth/_is_xml on a chain, pickling a linked root). Tie (measurement, not proof): max Python call depth under sys.setprofile "
-          "of ~70 operations x 12 shape families at depths d and 2d must not grow (<= 3), the same family beyond the recursion limit "
+          "of ~110 operations x 16 fixed + seeded random shape families (hand-linked and parsed) at depths 50..400 must not grow (<= 3), the same family beyond the recursion limit "
           "must not raise RecursionError, and the measured growth must equal the growth the Lean accounting computes for the same tree."),
     design="7/C11",
     note=("PARTIAL by nature: the theorems are about an accounting of the code's call graph; that the accounting matches CPython is "
@@ -65,6 +65,9 @@ FAMILIES = [
     "pre_chain",        # <pre><a><a>…</a>t</a>t</pre>            chain inside <pre> (popTag's == on the preserve stack)
     "pre_nested",       # <pre><pre>…</pre>t</pre>t               nested whitespace-preserving tags, trailing text
     "rt_nested",        # <rt><rt>…</rt>t</rt>t                   nested string-container tags, trailing text
+    "unclosed",         # <a><b><b>…x</a>            markup only: one end tag closes n open tags (`_popToTag`)
+    "unclosed_eof",     # <a><a><a>…x                markup only: nothing is closed before the end of input (`_feed`)
+    "twins",            # <a> <a><a>…x…</a></a> <a><a>…x…</a></a> </a>   two identical deep chains side by side
     "builderless",      # Tag(name="a") nested by hand (known_xml is None), trailing text
 ]
 PARSED_ONLY_OPS_FAMILIES = [f for f in FAMILIES if f != "builderless"]
@@ -154,6 +157,33 @@ def family_events(fam: str, n: int):
         for k in range(n):
             c()
             t("t")
+    elif fam == "unclosed":
+        o("a", {}, 0)
+        for k in range(1, n):
+            o("b", {}, k)
+        t("x")
+        for k in range(1, n):
+            ev.append(("c", "implicit"))
+        c()
+    elif fam == "unclosed_eof":
+        for k in range(n):
+            o("a", {}, k)
+        t("x")
+        for k in range(n):
+            ev.append(("c", "implicit"))
+    elif fam == "twins":
+        o("a", {}, 0)
+        for k in range(1, n):
+            o("a", {}, None)
+        t("x")
+        for k in range(1, n):
+            c()
+        for k in range(1, n):
+            o("a", {}, k)
+        t("x")
+        for k in range(1, n):
+            c()
+        c()
     elif fam.startswith("random:"):
         # a seeded shape; the decisions of level k do not depend on n, so the shape at depth 2d extends the one at d.
         # Each level repeats the previous level's decisions with probability 0.9 (long runs of look-alike levels are
@@ -212,7 +242,7 @@ def events_markup(ev) -> str:
                 names.append(e[1])
         elif e[0] == "c":
             nm = names.pop()
-            if nm is not None:
+            if nm is not None and len(e) == 1:       # ("c", "implicit"): the end tag is missing from the markup
                 out.append("</%s>" % nm)
         else:
             out.append(e[1])
@@ -233,13 +263,13 @@ def attr_code(at: dict) -> int:
 
 
 def events_tokens(ev, builderless: bool) -> str:
-    """the same tree for the Lean driver: o<name>.<attrs>.<kx>.<void>  c  t<text id>"""
+    """the same tree for the Lean driver: o<name>.<attrs>.<kx>.<void>  c  ci (end tag missing from the markup)  t<text id>"""
     out = []
     for e in ev:
         if e[0] == "o":
             out.append("o%d.%d.%d.%d" % (NAME_CODE[e[1]], attr_code(e[2]), 0 if builderless else 1, 1 if e[1] in VOID else 0))
         elif e[0] == "c":
-            out.append("c")
+            out.append("c" if len(e) == 1 else "ci")
         else:
             out.append("t%d" % (1 if e[1] == "x" else 2))
     return " ".join(out)
@@ -590,6 +620,8 @@ OPS = {
     "extend_mid": ("tree", _op_extend),
     "move_subtree": ("tree", _op_move),
     "index": ("tree", lambda h: h.top.index(h.top.contents[-1])),
+    "extract_last_child": ("tree", lambda h: h.top.contents[-1].extract()),
+    "replace_last_child": ("tree", lambda h: h.top.contents[-1].replace_with("s")),
     "smooth": ("tree", _op_smooth),
     "doc_smooth": ("doc", lambda h: h.soup.smooth()),
     "string_setter_mid": ("tree", lambda h: setattr(h.mid, "string", "new")),
@@ -625,8 +657,13 @@ MARKUP_OPS = [k for k, v in OPS.items() if v[0] == "markup"]
 DOC_OPS = [k for k, v in OPS.items() if v[0] == "doc"]
 
 
+MARKUP_ONLY = ("unclosed", "unclosed_eof")
+
+
 def applicable(op: str, fam: str, build: str) -> bool:
     kind = OPS[op][0]
+    if fam in MARKUP_ONLY:
+        return build == "parsed" and kind in ("markup", "doc")
     if fam == "builderless":
         if build != "raw" or kind in ("markup", "doc"):
             return False
@@ -708,34 +745,40 @@ def worker_main():
             emit(**rec)
             continue
         for n in job["depths"]:
-            h = build(bkind, n)
-            r = None
+            h = r = None
+            stage = "(while building the tree by parsing)"
             try:
+                h = build(bkind, n)
+                stage = ""
                 d, r = measure(fn, h)
                 rec["depths"][str(n)] = d
             except RecursionError:
-                rec["depths"][str(n)] = "RecursionError"
+                rec["depths"][str(n)] = "RecursionError" + stage
                 rec.setdefault("tb", _tail(traceback.format_exc()))
             except Exception as e:
-                rec["depths"][str(n)] = "error: %s: %s" % (type(e).__name__, str(e)[:120])
+                rec["depths"][str(n)] = "error%s: %s: %s" % (stage, type(e).__name__, str(e)[:120])
             finally:
                 sys.setprofile(None)
-                teardown_h(h, r)
+                if h is not None:
+                    teardown_h(h, r)
         for n in job["deep"]:
-            h = build(bkind, n)
-            r = None
+            h = r = None
             t0 = time.time()
+            stage = "(while building the tree by parsing)"
             try:
+                h = build(bkind, n)
+                stage = ""
                 r = fn(h)
                 rec["deep"][str(n)] = "ok"
             except RecursionError:
-                rec["deep"][str(n)] = "RecursionError"
+                rec["deep"][str(n)] = "RecursionError" + stage
                 rec.setdefault("tb", _tail(traceback.format_exc()))
             except Exception as e:
-                rec["deep"][str(n)] = "error: %s: %s" % (type(e).__name__, str(e)[:120])
+                rec["deep"][str(n)] = "error%s: %s: %s" % (stage, type(e).__name__, str(e)[:120])
             finally:
                 rec.setdefault("deep_s", {})[str(n)] = round(time.time() - t0, 3)
-                teardown_h(h, r)
+                if h is not None:
+                    teardown_h(h, r)
         emit(**rec)
     emit(ev="bye")
 
@@ -945,7 +988,7 @@ def run(ctx):
             growths = [b - a for a, b in zip(ds, ds[1:])] if ints else None
             ok_growth = ints and all(g <= GROWTH_MAX for g in growths)
             ok_deep = all(x == "ok" for x in dp)
-            table["%s|%s|%s" % (op, fam, build)] = {"depth": ds, "deep": dp}
+            table["%s|%s|%s" % (op, fam, build)] = ",".join(map(str, ds)) + ";" + ",".join(map(str, dp))
             observed = {"call_depth": dict(zip(map(str, depths), ds)), "beyond_limit": dict(zip(map(str, deep), dp)),
                         "traceback_tail": rec.get("tb")}
             m = mg.get((fam, op))
@@ -999,9 +1042,11 @@ def run(ctx):
     seen = {}
     def rank(v):
         c = v.get("case") or {}
-        k = (classify(c.get("operation") or "", c.get("family") or "") or c.get("operation"), )
+        op, fam = c.get("operation") or "", c.get("family") or ""
+        k = classify(op, fam) or ("builderless" if fam == "builderless" else "parse" if op in MARKUP_OPS else "other")
         seen[k] = seen.get(k, 0) + 1
-        return seen[k]
+        seen[(k, op)] = seen.get((k, op), 0) + 1
+        return (seen[(k, op)], seen[k])
     ranks = [rank(v) for v in ctx.violations]
     ctx.violations = [v for _, _, v in sorted(zip(ranks, range(len(ranks)), ctx.violations), key=lambda x: (x[0], x[1]))]
     ctx.extra["measurements"] = table
